@@ -19,7 +19,7 @@ RULE = ("pipeline/precedence: Hypothesis command lines = (one of 19 small valid 
         "missing extension, dotted directories and stems; writer ttml|srt|vtt likewise; --filter lists over lcd and two harness-defined "
         "DocumentFilter subclasses that do not commute; configuration JSON over every README key with documented values, passed "
         "inline / by file / both; option order shuffled).  errors / config_values: enumerations (every error scenario; every documented "
-        "key x every listed valid and invalid value x 2 contexts).  determinism: seeded (target command, 2-4 other commands, variant). "
+        "key x every listed valid and invalid value x 2 contexts).  determinism: seeded (target command biased to documents with several regions/colours, 2-4 other commands, hash seed 1|12345, log settings). "
         "evaluations = CLI runs judged.  non-trivial = the command converts, names >= 1 filter and sets >= 1 documented key of an active "
         "module to a non-default value (pipeline, config_values); the two configurations give different library output (precedence); "
         "the target converts after >= 2 other successful conversions (determinism); distinct by case hash (argv, config, input bytes).")
@@ -387,16 +387,21 @@ def check_config_value(case, res):
 
 # ------------------------------------------------------------------------------------------------ (5) determinism
 
-VARIANTS = (("hashseed", 1), ("hashseed", 12345), ("log", ["ERROR", False]), ("hashseed", 1), ("hashseed", 12345), ("log", ["WARN", True]),
-            ("log", ["INFO", False]), ("hashseed", 12345), ("hashseed", 1), ("log", ["ERROR", True]))
 LOG_SETTINGS = (["ERROR", False], ["WARN", True], ["INFO", False], ["INFO", True], ["WARN", False])
+
+
+# documents with several regions / colours / styles: where an iteration-order or state dependence would have something to reorder
+RICH = ("repo:scc/mix-rows-roll-up.scc", "repo:scc/pop-on.scc", "repo:stl/sandflow/br_new_colors.stl", "repo:stl/sandflow/multi_tti_subtitle.stl",
+        "repo:stl/irt/requirement-0091-001.stl", "repo:vtt/style.vtt", "repo:vtt/alignment.vtt", "hand:vtt-settings", "hand:ttml-regions",
+        "hand:srt-tags")
 
 
 def determinism_cases(seed, n):
   ch = g.RngChooser(random.Random(seed * 104729 + 19))
+  pool = [i for i in g.INPUTS if i["name"] in RICH] * 3 + g.INPUTS
   out = []
   for i in range(n):
-    t = g.gen_spec(ch, filter_lists=g.SUBPROCESS_FILTER_LISTS, p_mismatch=0.03)
+    t = g.gen_spec(ch, inputs=pool, filter_lists=g.SUBPROCESS_FILTER_LISTS, p_mismatch=0.03)
     if t["config"] and ch.boolean(0.5):
       t["config"].pop("general", None)          # state left behind by an earlier conversion would show
     hist = []
@@ -409,8 +414,9 @@ def determinism_cases(seed, n):
       if "lcd" in h["filters"] and h["config"] is not None:
         h["config"].setdefault("lcd", {}).update(color=ch.choice(["red", "#00ff00"]), bg_color=ch.choice(["blue", "black"]))
       hist.append(g.build_command(h))
-    out.append({"clause": "determinism", "target": g.build_command(t), "history": hist, "variant": list(VARIANTS[(i + seed) % len(VARIANTS)]),
-                "log_inprocess": LOG_SETTINGS[(i + seed) % len(LOG_SETTINGS)]})
+    out.append({"clause": "determinism", "target": g.build_command(t), "history": hist, "hashseed": (1, 12345)[(i + seed) % 2],
+                "log_inprocess": LOG_SETTINGS[(i + seed) % len(LOG_SETTINGS)],
+                "log_subprocess": LOG_SETTINGS[(i // 4 + seed) % len(LOG_SETTINGS)] if i % 4 == 0 else None})
   return out
 
 
@@ -475,6 +481,14 @@ def check_determinism(case, res):
       last = case["history"][-1]["expect"] if case["history"] else None
       res.fail("determinism:history-dependent", "argv %r gives other bytes after %d other conversions (last: %s to %s, filters %r)" % (
         target["argv"], len(case["history"]), last and last["reader"], last and last["writer"], last and last["filters"]))
+    # the same other conversions in the opposite order
+    for i, h in reversed(list(enumerate(case["history"]))):
+      g.run_inprocess(g.materialise(h, os.path.join(root, "r%d" % i)))
+    fourth, _ = run(g.run_inprocess)
+    runs += len(case["history"]) + 1
+    if fourth != first:
+      res.fail("determinism:history-dependent", "argv %r gives other bytes after the %d other conversions in reverse order" % (
+        target["argv"], len(case["history"])))
     # log / progress settings, in-process
     lv = with_log_settings(target, case["log_inprocess"])
     vroot = os.path.join(root, "v")
@@ -483,21 +497,24 @@ def check_determinism(case, res):
     runs += 1
     if logged != first:
       res.fail("determinism:log-settings:in-process", "general %r changes the output of argv %r" % (case["log_inprocess"], target["argv"]))
-    # one more fresh interpreter: another hash seed, or other log settings
-    what, val = case["variant"]
-    if what == "hashseed":
-      other, _ = run(lambda a: g.run_subprocess(a, val))
-      if other != fresh:
-        res.fail("determinism:hashseed", "PYTHONHASHSEED=%s changes the output of argv %r" % (val, target["argv"]))
-    else:
-      lv2 = with_log_settings(target, val)
+    # fresh interpreters: another hash seed; for every fourth case also other log settings
+    launches = 2
+    hs = case["hashseed"]
+    other, _ = run(lambda a: g.run_subprocess(a, hs))
+    if other != fresh:
+      res.fail("determinism:hashseed", "PYTHONHASHSEED=%s changes the output of argv %r" % (hs, target["argv"]))
+    res.label("hashseed:%d" % hs)
+    if case.get("log_subprocess"):
+      lv2 = with_log_settings(target, case["log_subprocess"])
       v2root = os.path.join(root, "v2")
       v2argv = g.materialise(lv2, v2root)
       other, _ = run(lambda a: g.run_subprocess(a, 0), v2argv, os.path.join(v2root, lv2["out"]))
       if other != fresh:
-        res.fail("determinism:log-settings:fresh-process", "general %r changes the output of argv %r" % (val, target["argv"]))
-    runs += 1
-    res.label("variant:%s:%s" % (what, val if what == "hashseed" else "/".join(map(str, val))), "subprocess-launches", "subprocess-launches")
+        res.fail("determinism:log-settings:fresh-process", "general %r changes the output of argv %r" % (case["log_subprocess"], target["argv"]))
+      launches += 1
+      res.label("log-settings-in-fresh-process")
+    runs += launches - 1
+    res.stats = {"subprocess-launches": launches}
     res.evals = runs
     res.nontrivial = fresh[0] == "ok" and converted >= 2
     res.label("target:" + ("converted" if fresh[0] == "ok" else "error"))
@@ -561,20 +578,20 @@ def selftest():
 _KEY_LABELS = tuple("cfgkey:%s.%s" % (m, k) for m, keys in g.DOC.items() for k in keys)
 
 PARTS = {
-  "pipeline": Part("pipeline", check_pipeline, strategy=pipeline_strategy, n=(960, 24000), shrinker=shrink_command,
+  "pipeline": Part("pipeline", check_pipeline, strategy=pipeline_strategy, n=(1600, 24000), shrinker=shrink_command,
                    required_labels=tuple("reader:" + f for f in g.IN_FORMATS) + tuple("writer:" + f for f in g.OUT_FORMATS) + _KEY_LABELS + (
                      "in:by-ext", "in:by-type", "in:by-type-over-ext", "in:by-type-noext", "out:by-ext", "out:by-type", "out:by-type-over-ext",
                      "out:by-type-noext", "filters:none", "filters:lcd", "filters:lcd,lcd", "filters:vt_append,vt_upper",
                      "filters:vt_upper,vt_append", "config-mode:none", "config-mode:inline", "config-mode:file", "config-mode:both-same",
                      "outcome:converted", "outcome:library-rejects", "nontrivial")),
-  "precedence": Part("precedence", check_precedence, strategy=precedence_strategy, n=(320, 8000), shrinker=shrink_command,
+  "precedence": Part("precedence", check_precedence, strategy=precedence_strategy, n=(480, 8000), shrinker=shrink_command,
                      required_labels=("precedence:observable", "config-mode:both")),
   "errors": Part("errors", check_errors, chunks=errors_chunks, cases=errors_iter,
                  required_labels=tuple("errors:" + s for s in sorted({s for s, _ in ERROR_SCENARIOS})) + ("errors:via-subprocess",)),
   "config_values": Part("config_values", check_config_value, chunks=config_chunks, cases=config_iter,
                         required_labels=("config:valid:converted", "config:invalid:rejected")),
   "determinism": Part("determinism", check_determinism, chunks=determinism_chunks, cases=determinism_iter, shrinker=shrink_determinism,
-                      required_labels=("target:converted", "variant:hashseed:1", "variant:hashseed:12345", "history:converted")),
+                      required_labels=("target:converted", "hashseed:1", "hashseed:12345", "history:converted", "log-settings-in-fresh-process")),
 }
 
 
